@@ -4,29 +4,29 @@ import HappyModel.C06.Spec
 set_option linter.unusedSimpArgs false
 namespace HappyModel.C06
 
-/-- the window state and the record of processed fault events are untouched -/
-def Frame (s s' : St) : Prop := s'.ws = s.ws ∧ s'.fired = s.fired
+/-- the window state, the record of processed fault events and the cancelled handles are untouched -/
+def Frame (s s' : St) : Prop := s'.ws = s.ws ∧ s'.fired = s.fired ∧ s'.cancelled = s.cancelled
 
-theorem Frame.refl (s : St) : Frame s s := ⟨rfl, rfl⟩
+theorem Frame.refl (s : St) : Frame s s := ⟨rfl, rfl, rfl⟩
 theorem Frame.trans {a b c : St} (h1 : Frame a b) (h2 : Frame b c) : Frame a c :=
-  ⟨h2.1.trans h1.1, h2.2.trans h1.2⟩
+  ⟨h2.1.trans h1.1, h2.2.1.trans h1.2.1, h2.2.2.trans h1.2.2⟩
 
-theorem frame_setSt (s : St) (j : Nat) (st : Status) : Frame s (s.setSt j st) := ⟨rfl, rfl⟩
-theorem frame_suspend (s : St) (j k : Nat) (st : Status) : Frame s (s.suspend j k st) := ⟨rfl, rfl⟩
+theorem frame_setSt (s : St) (j : Nat) (st : Status) : Frame s (s.setSt j st) := ⟨rfl, rfl, rfl⟩
+theorem frame_suspend (s : St) (j k : Nat) (st : Status) : Frame s (s.suspend j k st) := ⟨rfl, rfl, rfl⟩
 
 theorem frame_resolve (s : St) (f : Nat) : Frame s (s.resolve f) := by
   unfold St.resolve
   split
   · exact Frame.refl s
-  · split <;> exact ⟨rfl, rfl⟩
+  · split <;> exact ⟨rfl, rfl, rfl⟩
 
 theorem frame_wake : ∀ (l : List (Nat × Nat)) (s : St), Frame s (s.wake l)
-  | [], s => ⟨rfl, rfl⟩
+  | [], s => ⟨rfl, rfl, rfl⟩
   | (j, a) :: rest, s => by
     unfold St.wake
     split
-    · exact Frame.trans ⟨rfl, rfl⟩ (frame_wake rest _)
-    · exact ⟨rfl, rfl⟩
+    · exact Frame.trans ⟨rfl, rfl, rfl⟩ (frame_wake rest _)
+    · exact ⟨rfl, rfl, rfl⟩
 
 theorem frame_exec (c : Case) (j now : Nat) : ∀ (ops : List Op) (k : Nat) (s : St),
     Frame s (exec c j now ops k s).1
@@ -34,12 +34,12 @@ theorem frame_exec (c : Case) (j now : Nat) : ∀ (ops : List Op) (k : Nat) (s :
   | op :: rest, k, s => by
     cases op with
     | sleep d => simp only [exec]; exact frame_suspend _ _ _ _
-    | emit d => simp only [exec]; exact ⟨rfl, rfl⟩
+    | emit d => simp only [exec]; exact ⟨rfl, rfl, rfl⟩
     | wait f =>
       simp only [exec]
       split
       · exact frame_suspend _ _ _ _
-      · exact ⟨rfl, rfl⟩
+      · exact ⟨rfl, rfl, rfl⟩
     | res f =>
       simp only [exec]
       exact Frame.trans (frame_resolve s f) (frame_exec c j now rest (k + 1) _)
@@ -47,34 +47,38 @@ theorem frame_exec (c : Case) (j now : Nat) : ∀ (ops : List Op) (k : Nat) (s :
       simp only [exec]
       split
       · exact frame_exec c j now rest (k + 1) s
-      · split <;> exact ⟨rfl, rfl⟩
+      · split <;> exact ⟨rfl, rfl, rfl⟩
     | rel =>
       simp only [exec]
       split
       · exact frame_exec c j now rest (k + 1) s
       · rename_i g gs _
         have h1 : Frame s { s with avail := s.avail + (g * SC : Nat),
-                                   procs := upd s.procs j { s.procs j with grants := gs } } := ⟨rfl, rfl⟩
+                                   procs := upd s.procs j { s.procs j with grants := gs } } := ⟨rfl, rfl, rfl⟩
         exact Frame.trans (Frame.trans h1 (frame_wake s.waiters _)) (frame_exec c j now rest (k + 1) _)
 
 theorem frame_dropPop (s : St) (p : Pop) : Frame s (dropPop s p) := by
-  cases p <;> exact ⟨rfl, rfl⟩
+  cases p <;> exact ⟨rfl, rfl, rfl⟩
 
 theorem frame_resumeJob (c : Case) (s : St) (t j : Nat) : Frame s (resumeJob c s t j).1 := by
   unfold resumeJob
   simp only []
   refine Frame.trans ?_ (frame_exec c j t _ _ _)
-  split <;> exact ⟨rfl, rfl⟩
+  split <;> exact ⟨rfl, rfl, rfl⟩
 
+/-- the events that act on faults: fault events, `FaultHandle.cancel`, `Network.heal_partition` -/
 def Pop.isFault : Pop → Bool
   | .fault .. => true
+  | .cancel .. => true
+  | .healall .. => true
   | _ => false
 
 theorem frame_stepOpen (c : Case) (s : St) (p : Pop) (h : p.isFault = false) :
     Frame s (stepOpen c s p).1 := by
   cases p with
   | fault t f a => simp [Pop.isFault] at h
-  | cancel t f => exact ⟨rfl, rfl⟩
+  | cancel t f => simp [Pop.isFault] at h
+  | healall t => simp [Pop.isFault] at h
   | job t j cont =>
     cases cont with
     | false =>
@@ -90,16 +94,16 @@ theorem frame_stepOpen (c : Case) (s : St) (p : Pop) (h : p.isFault = false) :
         · exact Frame.refl s
       · exact frame_resumeJob c s t j
       · exact Frame.refl s
-  | sink t j k => simp only [stepOpen]; split <;> exact ⟨rfl, rfl⟩
+  | sink t j k => simp only [stepOpen]; split <;> exact ⟨rfl, rfl, rfl⟩
   | nsend t p =>
     simp only [stepOpen]
     split
     · exact Frame.refl s
     · split
-      · exact ⟨rfl, rfl⟩
-      · split <;> exact ⟨rfl, rfl⟩
-  | nhop t p => simp only [stepOpen]; split <;> exact ⟨rfl, rfl⟩
-  | recv t p => simp only [stepOpen]; split <;> exact ⟨rfl, rfl⟩
+      · exact ⟨rfl, rfl, rfl⟩
+      · split <;> exact ⟨rfl, rfl, rfl⟩
+  | nhop t p => simp only [stepOpen]; split <;> exact ⟨rfl, rfl, rfl⟩
+  | recv t p => simp only [stepOpen]; split <;> exact ⟨rfl, rfl, rfl⟩
 
 theorem frame_step (c : Case) (s : St) (p : Pop) (h : p.isFault = false) :
     Frame s (step c s p).1 := by
@@ -114,25 +118,34 @@ theorem frame_setCap (s : St) (o n : Nat) : Frame s (s.setCap o n) := by
   unfold St.setCap
   simp only []
   split
-  · exact Frame.trans ⟨rfl, rfl⟩ (frame_wake _ _)
-  · exact ⟨rfl, rfl⟩
+  · exact Frame.trans ⟨rfl, rfl, rfl⟩ (frame_wake _ _)
+  · exact ⟨rfl, rfl, rfl⟩
 
-/-- a fault event of a scheduled, not cancelled fault that is processed in order (activation
-    first, each once) applies exactly its closure to the window state -/
+/-- a fault event the engine can have delivered (`faultBad = false`: the handle is not cancelled,
+    activation first, each event of a scheduled fault once) applies exactly its closure to the window
+    state -/
 theorem step_fault (c : Case) (s : St) (t f : Nat) (a : Bool) (ft : Fault)
-    (hf : c.faults[f]? = some ft) (hc : ft.cancelled = false)
-    (h1 : s.fired.contains (f, a) = false) (h2 : a = false → s.fired.contains (f, true) = true) :
+    (hf : c.faults[f]? = some ft) (hg : faultBad s f a ft.kind = false) :
     (step c s (.fault t f a)).1.ws =
         (if a then s.ws.activate f ft.kind else s.ws.deactivate f ft.kind) ∧
-    (step c s (.fault t f a)).1.fired = (f, a) :: s.fired := by
-  have hg : (ft.cancelled || s.fired.contains (f, a) || (!a && !s.fired.contains (f, true))) = false := by
-    cases a <;> simp_all
+    (step c s (.fault t f a)).1.fired = (f, a) :: s.fired ∧
+    (step c s (.fault t f a)).1.cancelled = s.cancelled := by
   simp only [step, popEntity, stepOpen, faultPop, hf, hg]
   have := frame_setCap
     { s with ws := if a then s.ws.activate f ft.kind else s.ws.deactivate f ft.kind,
              fired := (f, a) :: s.fired }
     (s.ws.capOf c.cap)
     ((if a then s.ws.activate f ft.kind else s.ws.deactivate f ft.kind).capOf c.cap)
-  exact ⟨by simpa using this.1, by simpa using this.2⟩
+  exact ⟨by simpa using this.1, by simpa using this.2.1, by simpa using this.2.2⟩
+
+/-- `Network.heal_partition()` touches the partition reference counts and handles only -/
+theorem step_healall (c : Case) (s : St) (t : Nat) :
+    (step c s (.healall t)).1 = { s with ws := s.ws.healAll } := by
+  simp [step, popEntity, stepOpen]
+
+/-- `FaultHandle.cancel()` only marks the handle -/
+theorem step_cancel (c : Case) (s : St) (t f : Nat) :
+    (step c s (.cancel t f)).1 = { s with cancelled := f :: s.cancelled } := by
+  simp [step, popEntity, stepOpen]
 
 end HappyModel.C06
